@@ -6,8 +6,10 @@ import (
 	"context"
 	"encoding/json"
 	"fmt"
+	"github.com/samsarahq/thunder/reactive"
 	"os"
 	"sync"
+	"time"
 
 	"github.com/samsarahq/thunder/batch"
 	"github.com/samsarahq/thunder/graphql"
@@ -101,6 +103,30 @@ type xCase struct {
 }
 
 // xRun executes a query on the real executor with the given scheduler.
+// xInRerunner / xShareWrappers: execution environment of the next xRun calls (set per case by the checks that use them)
+var xInRerunner, xShareWrappers bool
+
+func xUnwrap(n *xNode, seen map[*xNode]bool) {
+	if n == nil || seen[n] {
+		return
+	}
+	seen[n] = true
+	n.wa = nil
+	var walk func(v *xVal)
+	walk = func(v *xVal) {
+		if v == nil {
+			return
+		}
+		xUnwrap(v.Node, seen)
+		for _, e := range v.List {
+			walk(e)
+		}
+	}
+	for _, v := range n.F {
+		walk(v)
+	}
+}
+
 func xRun(root *xNode, query string, vars map[string]interface{}, flag bool, sched graphql.WorkScheduler) (out interface{}, err error) {
 	schema := buildXSchema()
 	if p := safely(func() {
@@ -115,8 +141,26 @@ func xRun(root *xNode, query string, vars map[string]interface{}, flag bool, sch
 		if err = graphql.PrepareQuery(ctx, schema.Query, q.SelectionSet); err != nil {
 			return
 		}
+		if xShareWrappers {
+			xPrewrap(root, map[*xNode]bool{})
+		} else {
+			xUnwrap(root, map[*xNode]bool{})
+		}
 		var v interface{}
-		v, err = graphql.NewExecutor(sched).Execute(ctx, schema.Query, nil, q)
+		if xInRerunner {
+			// the way http.go and the websocket server run the executor: inside a rerunner, so that the reactive cache
+			// of Expensive fields is in effect
+			done := make(chan struct{})
+			rr := reactive.NewRerunner(ctx, func(ctx context.Context) (interface{}, error) {
+				defer close(done)
+				v, err = graphql.NewExecutor(sched).Execute(ctx, schema.Query, nil, q)
+				return nil, err
+			}, time.Hour, false)
+			<-done
+			rr.Stop()
+		} else {
+			v, err = graphql.NewExecutor(sched).Execute(ctx, schema.Query, nil, q)
+		}
 		if err != nil {
 			return
 		}
@@ -135,6 +179,8 @@ func xModel(m *Model, prop string, root *xNode, q *xQuery, flag bool) (map[strin
 
 func c01One(c *Ctx, m *Model, root *xNode, q *xQuery, flag bool) {
 	rep := c.Rep
+	xInRerunner, xShareWrappers = c.Rng.Chance(0.5), c.Rng.Chance(0.6)
+	defer func() { xInRerunner, xShareWrappers = false, false }()
 	cs := xCase{Root: root, Query: q.Text, Vars: q.Vars, Flag: flag}
 	resp, err := xModel(m, "C01", root, q, flag)
 	if err != nil {
